@@ -604,8 +604,6 @@ class DFTTransformer(BilateralForwardTransformer):
                     # Shift frequency to -pi/2 ...  pi/2
                     if nn0.has(self.N):
                         nn0 = nn0.subs(self.N, 0)
-                    elif sym.sympify(nn0 - self.N / 2).is_positive:
-                        nn0 -= self.N
 
                     result_q = const * q**nn0
                     result = QkTransform(result_q)
